@@ -36,6 +36,7 @@ res['demo_exit_with_change'] = demo()
 sh('git diff > %s/_confirm.patch' % out, wt)
 sh('git apply -R %s/_confirm.patch' % out, wt)
 try:
+    sh('cmake --build _build -j8', wt)      # demos that link the worktree's libraries need them rebuilt without the change
     res['demo_exit_without_change'] = demo()
 finally:
     sh('git apply %s/_confirm.patch' % out, wt)
